@@ -18,5 +18,5 @@ Extraction "../extract/C19/model.ml"
   (* containers *)
   is_pos is_dim is_add is_add_list is_remove_pos is_remove_range dis_room dis_setmax
   ns_names ns_number ns_has ns_key ns_add ns_remove_name ns_remove_num ns_remove_keys ns_remove_nums ns_remove_perm
-  ns_clear ns_remax svs_ensure svs_add ht_get ht_has ht_add ht_remove
+  ns_clear ns_remax nstr nm_init nm_remax nm_pack nm_add nm_keep nm_clear nm_name svs_ensure svs_add ht_get ht_has ht_add ht_remove
   arr_insert arr_remove arr_remove_last arr_resize lst_append lst_prepend lst_insert_after lst_remove lst_remove_next.
